@@ -148,6 +148,8 @@ def resolve(vm, callee, subst):
             im = f.impl
             if unify(im.self_ty, selfty, set(im.generics), out) and _targs_ok(im, ci.targs, out):
                 return ('mir', f, bind_fn_generics(vm, f, out, ci.fnargs))
+            if selfty == head and len(cands) == 1:        # called from a model on a runtime value: type arguments unknown
+                return ('mir', f, bind_fn_generics(vm, f, {}, ci.fnargs))
         # blanket impls (self type is a generic parameter of the impl)
         for (tr, h, meth), fs in mir.by_impl.items():
             if tr != ci.trait or meth != ci.method: continue
